@@ -181,7 +181,7 @@ def run_mux_case(case, judged):
                        "w_stb": int(rng.random() < 0.6), "w_data": biased_bits(rng, dw)}
                 continue
             r = rng.choice(regs)
-            kind = rng.choice(["r", "w", "rw", "r", "w"])
+            kind = rng.choice(["r", "w", "rw", "r", "w", "rmw"])
             length = r["end"] - r["start"]
             stop_after = length if rng.random() < 0.7 else rng.randint(1, length)
             for k in range(stop_after):
@@ -191,6 +191,14 @@ def run_mux_case(case, judged):
                     # protocol breach in the middle of a transaction (monitor must cope)
                     yield {"addr": rng.randrange(1 << aw), "r_stb": int(rng.random() < 0.5),
                            "w_stb": int(rng.random() < 0.5), "w_data": biased_bits(rng, dw)}
+                if kind == "rmw":
+                    # byte-wise read-modify-write: chunk k is read, then (after a cycle or a few) written, then chunk k+1
+                    yield {"addr": r["start"] + k, "r_stb": 1, "w_stb": 0, "w_data": biased_bits(rng, dw)}
+                    while rng.random() < 0.2:
+                        yield {"addr": rng.randrange(1 << aw), "r_stb": 0, "w_stb": 0, "w_data": biased_bits(rng, dw)}
+                    yield {"addr": r["start"] + k, "r_stb": 0, "w_stb": 1, "w_data": biased_bits(rng, dw)}
+                    mon.counters["read_modify_write_chunk_pairs"] += 1
+                    continue
                 yield {"addr": r["start"] + k, "r_stb": int("r" in kind), "w_stb": int("w" in kind),
                        "w_data": biased_bits(rng, dw)}
 
